@@ -131,7 +131,19 @@ def scopes_for_owner(
                 set_resolution_context(environment, context_scopes)
                 resolved_env = environment.value
                 if isinstance(resolved_env, AttributeSet):
-                    env_scope = _scope_from_attrset(resolved_env, base=tuple(scopes))
+                    # The set is written where the name is bound: its values
+                    # refer to the scopes of that definition, not to the
+                    # layers around the `with`.
+                    definition = get_resolution_context(resolved_env)
+                    if definition is not None:
+                        env_scope = _as_scope(resolved_env.values, owner=resolved_env)
+                        env_scope.definition_chain = tuple(definition.scopes) + (
+                            (env_scope,) if resolved_env.recursive else ()
+                        )
+                    else:
+                        env_scope = _scope_from_attrset(
+                            resolved_env, base=tuple(scopes)
+                        )
                 else:
                     raise ResolutionError(
                         "with environment must resolve to an attribute set"
